@@ -62,6 +62,7 @@ def gen(rng):
     lines = []
     exp_emit = {}      # line -> (addr, phase, units, hdr)
     exp_sym = {}       # NAME -> value
+    exp_seg = {}       # NAME -> segment name (labels only)
     kinds = []
     lab = [0]
     maxdepth = [0]
@@ -102,6 +103,7 @@ def gen(rng):
             name = newlab()
             ln = add('%s:\t%s\t%s' % (name, dop, ','.join(str(rng.randrange(200)) for _ in range(n))))
             exp_sym[name.upper()] = m.pc[m.seg] + m.cur_off()
+            exp_seg[name.upper()] = m.seg
             exp_emit[ln] = (m.pc[m.seg], m.cur_off(), n, HDR[m.cpu])
             m.pc[m.seg] += n
             kinds.append('data')
@@ -112,6 +114,7 @@ def gen(rng):
             name = newlab()
             add('%s:\t%s\t%d' % (name, rop, n))
             exp_sym[name.upper()] = m.pc[m.seg] + m.cur_off()
+            exp_seg[name.upper()] = m.seg
             m.pc[m.seg] += n
             kinds.append('res')
         elif k == 5 and pcsym:
@@ -132,9 +135,11 @@ def gen(rng):
             add('\trorg\t%d' % d)
             m.pc[m.seg] += d
             kinds.append('rorg')
-        elif k == 8 and not phased:
+        elif k == 8 and (not phased or (m.seg == 'code' and m.cpu not in ('16c84',))):
             n = rng.choice([1, 2, 4, 8, 16, 64]) if not (m.seg in ('data', 'idata')) else rng.choice([1, 2, 4])
-            new = (m.pc[m.seg] + n - 1) // n * n
+            # the program counter that is aligned is the one labels and the PC symbol read: load address + phase offset
+            off_ = m.cur_off()
+            new = (m.pc[m.seg] + off_ + n - 1) // n * n - off_
             lo, hi = segtab[m.seg]
             if new + 4 > hi:
                 continue
@@ -142,7 +147,7 @@ def gen(rng):
                 fill = rng.randrange(256)
                 ln = add('\talign\t%d,%d' % (n, fill))
                 if new > m.pc[m.seg]:
-                    exp_emit[ln] = (m.pc[m.seg], 0, new - m.pc[m.seg], HDR[m.cpu])
+                    exp_emit[ln] = (m.pc[m.seg], off_, new - m.pc[m.seg], HDR[m.cpu])
                 kinds.append('alignfill')
             else:
                 add('\talign\t%d' % n)
@@ -160,7 +165,12 @@ def gen(rng):
             kinds.append('segment')
         elif k == 10 and m.cpu != '16c84' and not (m.seg in ('data', 'idata') and m.cpu == '8051'):
             a = rng.randrange(0x100, 0x7000)
-            add('\tphase\t%d' % a)
+            if rng.random() < 0.25:
+                # PHASE to the address already in force: the offset stays, but the statement still needs its own DEPHASE
+                a = m.pc[m.seg] + m.cur_off()
+                add('\tphase\t%s' % (pcsym if (pcsym and rng.random() < 0.5) else str(a)))
+            else:
+                add('\tphase\t%d' % a)
             m.stack.setdefault(m.seg, []).append(m.off.get(m.seg, 0))
             m.off[m.seg] = a - m.pc[m.seg]
             maxdepth[0] = max(maxdepth[0], len(m.stack[m.seg]))
@@ -176,14 +186,21 @@ def gen(rng):
             kinds.append('save')
         elif k == 13 and m.save and not any_phase:
             add('\trestore')
+            oldcpu = m.cpu
             m.cpu, m.seg = m.save.pop()
+            if m.cpu != oldcpu or m.seg not in m.pc:
+                # counters of segments the other family does not have: set explicitly (manual silent about their survival)
+                lo, hi = TARGETS[m.cpu][3][m.seg]
+                m.pc[m.seg] = rng.randrange(lo, max(lo + 1, min(hi - 8, lo + 0x300)))
+                add('\torg\t%d' % m.pc[m.seg])
             kinds.append('restore')
-        elif k == 14 and m.cpu in SWITCH and m.seg == 'code' and not any_phase and not m.save:
-            # the other family shares only the CODE segment: leave the others behind
+        elif k == 14 and m.cpu in SWITCH and not any_phase and (m.seg == 'code' or m.save):
+            # the other family shares only the CODE segment; the CPU statement itself selects CODE
             new = rng.choice(SWITCH[m.cpu])
-            pc = m.pc['code']
+            pc = m.pc.get('code', 0x100)
             add('\tcpu\t%s' % new)
             m.cpu = new
+            m.seg = 'code'
             m.pc = {'code': pc}
             m.off = {}
             m.stack = {}
@@ -208,12 +225,20 @@ def gen(rng):
     while m.save:
         add('\trestore')
         m.cpu, m.seg = m.save.pop()
-    return cpu, '\n'.join(lines) + '\n', exp_emit, exp_sym, kinds, maxdepth[0], segs_used
+        if m.seg not in m.pc:
+            lo, hi = TARGETS[m.cpu][3][m.seg]
+            m.pc[m.seg] = lo
+            add('\torg\t%d' % lo)
+        name = newlab('z')
+        add('%s:' % name)
+        exp_sym[name.upper()] = m.pc[m.seg] + m.cur_off()
+        exp_seg[name.upper()] = m.seg
+    return cpu, '\n'.join(lines) + '\n', exp_emit, exp_sym, kinds, maxdepth[0], segs_used, exp_seg
 
 
 def run_case(case, ctx):
     out = ctx.out
-    cpu, text, exp_emit, exp_sym, kinds, depth, segs = gen(ctx.rng)
+    cpu, text, exp_emit, exp_sym, kinds, depth, segs, exp_seg = gen(ctx.rng)
     ctx.write('g.asm', text)
     a = asl.assemble(ctx, 'g.asm', [], trace=True, timeout=60)
     tag = 'generated #%d (%s)' % (ctx.idx, cpu)
@@ -260,10 +285,19 @@ def run_case(case, ctx):
         if ln not in exp_emit:
             out.violate('unexpected-emission', '%s: line %d %r emitted code' % (tag, ln, lines[ln - 1] if ln <= len(lines) else '?'))
     syms = {}
+    masks = {}
     for e in a.trace:
         if e['k'] == 'S' and e['sect'] == -1 and e['typ'] == 'I':
             v = int(e['val'], 16)
             syms[e['name']] = v - (1 << 64) if v >= (1 << 63) else v
+            masks[e['name']] = e['mask']
+    segnum = {'code': 1, 'data': 2, 'idata': 3, 'xdata': 4}
+    if cpu in ('8051', 'z80', '8080', '6502'):
+        for name, sg in exp_seg.items():
+            if name in masks and masks[name] != (1 << segnum[sg]):
+                out.violate('label-in-wrong-segment', '%s: label %s is typed for segment mask %#x, the model says %s' % (tag, name, masks[name], sg))
+                break
+            out.obs['label_segments_checked'] += 1
     for name, want in exp_sym.items():
         if name not in syms:
             plain = name.split('_', 1)[1] if '_' in name else None
